@@ -4,10 +4,10 @@ import (
 	"encoding/json"
 	"fmt"
 	"os"
-	"time"
 	"os/exec"
 	"sort"
 	"strings"
+	"time"
 
 	"vharness/internal/abs"
 	"vharness/internal/sess"
